@@ -75,6 +75,15 @@ CHECKS = {
             "Design: all interleavings of runner, 2-3 consumers (reading / stopped), spawn and despawn at every point, 2-4 messages, "
             "capacity 1: order, exactly-once, no send on closed channel, delivered-while-connected, despawn completes. Code: the TLC "
             "lasso forced on the real fan-out in several shapes, seeded random life-cycle histories, relay with concurrent emitters."),
+    "C18": ("model_checking", "DESIGN.md 5/C18",
+            "TLA+ spec of the upkeep walk with one action per file-system mutation and a crash action (spec/Upkeep.tla) model-checked "
+            "exhaustively by TLC; the real updateHIDIConfiguration run under strace on prepared trees with SIGKILL injected at "
+            "file-system calls, mutation lists and tree snapshots judged by TLC (spec/UpkeepHist.tla)",
+            "trusted: TLC, strace (mutation log, fault injection), the content classifier of lib/upkeep.py; type confusion "
+            "(file vs directory), symlinks and permission errors are outside the quantifier",
+            "Design: every combination of file states (absent, intact, empty, truncated, modified, longer) and missing directories, crash "
+            "after every mutation, repeated runs: user files untouched, factory restored, blacklist only created, idempotent. Code: the same "
+            "judged on real runs over systematic and seeded trees with crash points."),
     "C20": ("model_checking", "DESIGN.md 5/C20",
             "TLA+ spec of grouping and type rule (spec/Discovery.tla); the real input.Normalize run on every sequence of synthetic "
             "handlers (every multiset in every order), each call judged by TLC (spec/CaseTrace.tla)",
@@ -109,7 +118,7 @@ def main():
              "serves_properties": [i for i in ids if i in CHECKS and i in ("C01", "C02", "C03", "C04", "C05", "C06", "C07", "C08", "C13", "C14")],
              "kind_free_text": "TLC exhaustive model checking + tours + trace validation of the per-device engine"},
             {"name": "case-oracle", "path": "spec/CaseTrace.tla spec/NoteNames.tla spec/Loader.tla spec/Discovery.tla spec/ConfigFile.tla",
-             "serves_properties": [i for i in ids if i in CHECKS and i in ("C09", "C10", "C11", "C12", "C15", "C20")],
+             "serves_properties": [i for i in ids if i in CHECKS and i in ("C09", "C10", "C11", "C12", "C15", "C18", "C20")],
              "kind_free_text": "specification as enumerated oracle: the real function is run on generated cases, TLC judges every logged case"},
         ],
         "checks": [],
